@@ -769,11 +769,21 @@ std::vector<int> GridLocalPolynomial::getSubGraph(std::vector<int> const &point)
 
     std::vector<int> monkey_count(1, 0), monkey_tail;
 
+    // the descendants are all points whose surplus depends on this point, i.e., the kids and the step-kids;
+    // getKid() lists the step-kids of every rule except for semi-localp, where 3 has step-parent 2 and 4 has step-parent 1
+    auto get_kid = [](int pnt, int kid_number)->int{
+        if (effrule == RuleLocal::erule::semilocalp and kid_number == 1){
+            if (pnt == 1) return 4;
+            if (pnt == 2) return 3;
+        }
+        return RuleLocal::getKid<effrule>(pnt, kid_number);
+    };
+
     while(monkey_count[0] < max_kids){
         if (monkey_count.back() < max_kids){
             int dim = monkey_count.back() / max_1d_kids;
             monkey_tail.push_back(p[dim]);
-            p[dim] = RuleLocal::getKid<effrule>(monkey_tail.back(), monkey_count.back() % max_1d_kids);
+            p[dim] = get_kid(monkey_tail.back(), monkey_count.back() % max_1d_kids);
             int slot = points.getSlot(p);
             if ((slot == -1) || used[slot]){ // this kid is missing
                 p[dim] = monkey_tail.back();
